@@ -19,8 +19,10 @@ EXPLANATION = (
     "(except the text descriptor and DiskDescriptor.xml), no constructor reaches the data read path or loops over allocation "
     "units, every mapping-table loader is reached only through its memoisation (lru_cache rebinding / cached_property), every "
     "offset-carrying header / table field has the specified width (positional layouts), no 32-bit (or narrower) mask, modulo or "
-    "ctypes narrowing lies on the backward slice of a seek argument outside a spec-confirmed allow-list, and no open-time "
-    "read is dead. Does NOT measure bytes read and does not exercise multi-terabyte images."
+    "ctypes narrowing lies on the backward slice of a seek argument outside a spec-confirmed allow-list - the slice is followed "
+    "interprocedurally through resolved call sites (parameters -> callers' arguments) and through return / yield values of "
+    "repository functions, data positions only (conditions contribute no bits) -, the buffered base class is initialised with "
+    "its default alignment (adopted from C08), and no open-time read is dead. Does NOT measure bytes read and does not exercise multi-terabyte images."
 )
 ASSUMPTIONS = ["Python integers are unbounded, so a product of wide fields cannot overflow; only explicit narrowing operators can lose bits"]
 
@@ -137,6 +139,7 @@ def run(chk: Check):
                    f"the table loader is only reachable through {how}" if ok else f"the table loader is called unmemoised: every look-up re-reads the table")
     # ---- narrowing scan on seek arguments -----------------------------------------------------------------
     n_seek = 0
+    slicer = _Slicer(chk)
     for rel in DISK:
         mi = chk.prog.info(rel)
         for mi_, ci, fn in iter_functions(chk.prog):
@@ -150,6 +153,9 @@ def run(chk: Check):
                 n_seek += 1
                 t = R.expr(ctx, s.args[0])
                 probs = _narrowings(t, q)
+                if not probs:
+                    # interprocedural part of the backward slice: callers' arguments, callees' return / yield values
+                    probs = [f"{p} [{' <- '.join(trail)}]" for p, trail in slicer.slice(t, q)]
                 chk.decide(not probs, "K-WIDE", f"seek-slice-not-narrowed:{q}", s,
                            "no 32-bit (or narrower) mask / modulo / ctypes narrowing on the address computation" if not probs else probs[0],
                            found=S.show(t)[:200])
@@ -171,6 +177,8 @@ def run(chk: Check):
             chk.violated("K-LIVE", "dead-read", n, why)
         if not dr:
             chk.holds("K-LIVE", f"no-dead-read:{cname}", ctx.func, "every value read at open time is used before it is overwritten", nontrivial=False)
+    # request-proportional I/O: the buffered base class is initialised with its default alignment (shared with C08)
+    chk.share("C08", lambda i: i.name.startswith("base-init:"), 6)
     chk.require("K-WIDE", 30)
     chk.require("K-PURE", 7)
     chk.require("K-PATH", 8)
@@ -185,9 +193,24 @@ def _allowed_operand(key, operand):
     return True
 
 
+def _data_walk(t):
+    """Sub-terms on the data path of a value: conditions (the test of a conditional, comparisons, boolean connectives and
+    `not`) select between values but contribute no bits, so a flag test like `features & 16` there is not a narrowing."""
+    yield t
+    if not (isinstance(t, tuple) and t):
+        return
+    if t[0] in ("cmp", "bool", "not"):
+        return
+    kids = list(S.children(t))
+    if t[0] == "ite":
+        kids = kids[1:]
+    for c in kids:
+        yield from _data_walk(c)
+
+
 def _narrowings(t, q):
     probs = []
-    for x in S.walk(t):
+    for x in _data_walk(t):
         if not (isinstance(x, tuple) and x):
             continue
         if x[0] == "op" and x[1] in ("and", "mod"):
@@ -275,3 +298,127 @@ def _closure(chk: Check, rel, qual):
                 seen.add(callee)
                 stack.append(callee)
     return seen
+
+
+# receiver-less method names too generic to be matched by name when the receiver's class is unknown
+_GENERIC = {"get", "read", "seek", "tell", "open", "close", "append", "extend", "join", "items", "keys", "values", "pop",
+            "setdefault", "update", "format", "decode", "encode", "ljust", "rjust", "strip", "split", "find", "index",
+            "count", "copy", "debug", "info", "warning", "error", "exception", "startswith", "endswith", "lower", "upper"}
+
+
+class _Slicer:
+    """Interprocedural continuation of a backward slice over reconstructed terms:
+    a parameter leaf continues in the argument terms of every resolved call site of its function, a call / iteration term of a
+    repository function continues in that function's return and yield values.  Narrowing operators are reported with the
+    function they occur in (the allow-list is per function) and the trail that connects them to the seek."""
+
+    DEPTH = 5
+
+    def __init__(self, chk: Check):
+        self.chk = chk
+        self.R = chk.R
+        self.feeds = None
+        self.values = {}
+        self.sites = 0
+
+    def _index(self):
+        chk, R = self.chk, self.R
+        self.feeds = {}
+        by_name = {}
+        funcs = []
+        for mi, ci, fn in iter_functions(chk.prog):
+            if mi.mod.relpath not in DISK:
+                continue
+            ctx = R.ctx_of(fn)
+            funcs.append(ctx)
+            if ci is not None:
+                by_name.setdefault((mi.mod.relpath, fn.name), []).append(ctx.qual)
+        for ctx in funcs:
+            rel = ctx.qual.partition("::")[0]
+            for n in _own_nodes(ctx.func):
+                if not isinstance(n, ast.Call):
+                    continue
+                try:
+                    t = R.expr(ctx, n)
+                except Exception:
+                    continue
+                if t[0] != "call":
+                    continue
+                nm, args = t[1], t[2]
+                kws = t[3] if len(t) > 3 and t[3] else ()
+                targets = []
+                if nm.startswith("new:"):
+                    targets = [(nm[4:] + ".__init__", 1)]
+                elif nm.startswith("ext:") or nm.startswith("?"):
+                    continue
+                elif "::" in nm:
+                    targets = [(nm, 0)]
+                elif nm.startswith(".") and nm[1:] not in _GENERIC:
+                    targets = [(q, 0) for q in by_name.get((rel, nm[1:]), [])]
+                for callee, shift in targets:
+                    r2, _, qq = callee.partition("::")
+                    if not chk.prog.has_func(r2, qq):
+                        continue
+                    cctx = chk.func(r2, qq)
+                    names = [a.arg for a in cctx.func.args.posonlyargs + cctx.func.args.args]
+                    self.sites += 1
+                    slot = self.feeds.setdefault(callee, {})
+                    for i, a in enumerate(args):
+                        slot.setdefault(i + shift, []).append((ctx.qual, a))
+                    for kw in kws:
+                        if isinstance(kw, tuple) and len(kw) == 2 and kw[0] in names:
+                            slot.setdefault(names.index(kw[0]), []).append((ctx.qual, kw[1]))
+
+    def _values(self, callee):
+        """Return / yield value terms of a repository function."""
+        if callee in self.values:
+            return self.values[callee]
+        out = []
+        r2, _, qq = callee.partition("::")
+        if self.chk.prog.has_func(r2, qq):
+            ctx = self.chk.func(r2, qq)
+            for n in _own_nodes(ctx.func):
+                v = None
+                if isinstance(n, ast.Return) and n.value is not None:
+                    v, at = n.value, n
+                elif isinstance(n, ast.Yield) and n.value is not None:
+                    v, at = n.value, n
+                if v is None:
+                    continue
+                try:
+                    out.append(self.R.expr(ctx, v, ctx.cfg.node_for(at)))
+                except Exception:
+                    continue
+        self.values[callee] = out
+        return out
+
+    def slice(self, t, q, depth=None, seen=None, trail=()):
+        if self.feeds is None:
+            self._index()
+        depth = self.DEPTH if depth is None else depth
+        seen = set() if seen is None else seen
+        out = []
+        if trail:
+            out += [(p, trail) for p in _narrowings(t, q)]
+        if depth == 0:
+            return out
+        for x in _data_walk(t):
+            if not (isinstance(x, tuple) and x):
+                continue
+            if x[0] == "p" and isinstance(x[1], str) and "::" in x[1]:
+                key = ("p", x[1], x[2])
+                if key in seen:
+                    continue
+                seen.add(key)
+                for caller, term in self.feeds.get(x[1], {}).get(x[2], []):
+                    cq = caller.split("::")[-1]
+                    out += self.slice(term, cq, depth - 1, seen, trail + (f"argument {x[2]} of {x[1].split('::')[-1]} in {cq}",))
+            elif x[0] == "call" and isinstance(x[1], str) and "::" in x[1] and not x[1].startswith(("ext:", "new:", "?")):
+                key = ("v", x[1])
+                if key in seen:
+                    continue
+                seen.add(key)
+                for term in self._values(x[1]):
+                    cq = x[1].split("::")[-1]
+                    out += self.slice(term, cq, depth - 1, seen, trail + (f"value of {cq}",))
+        return out
